@@ -440,7 +440,7 @@ def exptail(x, n):
     while True:
         t = math.exp(i * math.log(x) - math.lgamma(i + 1))
         tot += t
-        if i > x and t < 1e-18 * tot:
+        if i > x and t <= 1e-18 * tot:      # `<=`: for tiny x the very first term underflows to 0.0 and `<` never became true (the checker itself looped: seed s65a)
             return tot
         i += 1
 
